@@ -339,11 +339,12 @@ def int_from_bytes(data, byteorder="big", *, signed=False):
     parts = []
     for it in items:
         l = lift(it)
-        parts.append(z3.Extract(7, 0, l.ext(9)))
+        # a byte is 0..255 by construction (bytes() refuses anything else); its interval book-keeping may be wider (x & 0xff | 0x80 ...)
+        parts.append(z3.Extract(7, 0, l.ext(max(9, core._bits_for(l.lo, l.hi)))))
     e = z3.Concat(*parts) if n > 1 else parts[0]
     e = z3.ZeroExt(1, e)
-    lo = sum((lift(it).lo) << (8 * (n - 1 - k)) for k, it in enumerate(items))
-    hi = sum((lift(it).hi) << (8 * (n - 1 - k)) for k, it in enumerate(items))
+    lo = sum(max(lift(it).lo, 0) << (8 * (n - 1 - k)) for k, it in enumerate(items))
+    hi = sum(min(lift(it).hi, 255) << (8 * (n - 1 - k)) for k, it in enumerate(items))
     return SymInt.mk(z3.simplify(e), lo, hi)
 
 
